@@ -104,9 +104,24 @@ def check(c):
                 if not numpy.array_equal(cnt, numpy.asarray(sc.relative_frequency_by_int)):
                     return (f"after executing the job {attempt} time(s), subcircuit {k} has {len(sc.readouts)} recorded readouts but a "
                             f"frequency table summing to {float(numpy.asarray(sc.relative_frequency_by_int).sum())}")
+                rs2 = sc.relative_frequency_by_str        # read on every execution: the two views stay in step
+                if any(rs2[le_str(v, n)] != sc.relative_frequency_by_int[v] for v in range(2 ** n)):
+                    return f"after executing the job {attempt} time(s), the string view of subcircuit {k}'s frequencies lags behind the integer view"
             for r in exe.readouts:
                 if not any(r is x for x in r.subcircuit.readouts):
                     return f"execution {attempt}: a reported readout is not among the readouts of its subcircuit"
+    # hardware outputs for a program parsed WITHOUT gate definitions: all n register qubits are measured, whether a gate
+    # touches them or not
+    bare = parse_jaqal_string(f"register q[{n}]\nprepare_all\nfoo q[0]\nmeasure_all\n", autoload_pulses=False)
+    top = 2 ** n - 1
+    for outs in ([top], [le_str(top, n)]):
+        try:
+            rb = parse_jaqal_output_list(bare, list(outs))
+        except JaqalError as ex:
+            return f"hardware output {outs} for an {n}-qubit register is rejected: {ex}"
+        r0 = rb.readouts[0]
+        if r0.as_int != top or r0.as_str != "1" * n or len(rb.subcircuits[0].relative_frequency_by_int) != 2 ** n:
+            return f"hardware output {outs} for an {n}-qubit register is read as {r0.as_int} / {r0.as_str!r} over {len(rb.subcircuits[0].relative_frequency_by_int)} outcomes"
     # hardware outputs: strings and ints interpreted identically
     ints = [(5 * i + (basis or 1)) % (2 ** n) for i in range(4)]
     strs = [le_str(v, n) for v in ints]
